@@ -95,8 +95,19 @@ func flagSig(k *keyid.KeyID) string {
 
 // checkDecode applies the decoding clause to an arbitrary text. shape is a short
 // label of how the text was derived (used for signatures and counters).
+var ring *ev.Ring
+
+func decodeDigest(text string) string {
+	k, err := keyid.Unmarshal(text)
+	if err != nil {
+		return "error"
+	}
+	return fmt.Sprintf("%+v", *k)
+}
+
 func checkDecode(r *ev.Run, c *ev.Case, text, shape string) {
 	r.Eval(1)
+	defer func() { ring.Add(r, c, func() string { return decodeDigest(text) }, decodeDigest(text), text) }()
 	var k *keyid.KeyID
 	var err error
 	if r.Guard(c, "Unmarshal", caseRec{Text: text, What: shape}, func() { k, err = keyid.Unmarshal(text) }) {
@@ -199,6 +210,7 @@ func main() {
 	ev.MainIsolated("C05", "exploration", 40*time.Minute, func(r *ev.Run) {
 		r.Rule("cases: (1) the full attribute cube 2^4 flags x touch{-1,0,1,2,3,4,99} x usage{0,1,7} x version{0,1,2,65535}, each with seeded principals/strings, encoded and round-tripped; (2) for every cube value its raw JSON (bypassing the encoder's checks) decoded; (3) per valid encoding every single required-field deletion, case-rename, duplication and retyping; (4) JSON scalars/arrays/nesting; (5) random bytes and byte mutations of valid encodings. distinct_nontrivial = distinct encoder outputs + distinct decoder inputs that are JSON objects (i.e. got past syntax) + distinct refused flag combinations")
 		r.Assume("encoding/json (into map[string]RawMessage) is the independent witness for 'the text contained the field'", "strings are valid UTF-8 (JSON cannot carry other bytes verbatim)")
+		ring = ev.NewRing("keyid.Unmarshal", r.Seed, 37)
 		reps := r.Pick(2, 40)
 		// (1)+(2) cube
 		if r.Want("cube") {
